@@ -29,20 +29,20 @@ theorem decryptWire_encryptVal (P : Prims) (hP : PrimsCorrect P) (s : Suite) (se
     (hp : ∃ x, unmarshalRaw p = some x)
     (henc : encryptVal P s sek svk Fdo.Gen.Schemas.s_Encrypt0 rnd p = some (t, inner, rest))
     (hsch : tunnelSchema t = some sch) (hraw : marshalS sch inner = some raw)
-    (hconf : conf 10000 maxDepth sch inner = true) (hw : wconf 10000 maxDepth sch inner = true)
+    (hconf : conf (fun _ => true) 10000 maxDepth sch inner = true) (hw : wconf 10000 maxDepth sch inner = true)
     (hlen : raw.length + 16 < 18446744073709551616) :
     decryptWire P s sek svk (encHead 6 t ++ raw) = .ok p := by
   obtain ⟨ht, hfr, hpd⟩ := tunnelSchema_facts t sch hsch
-  have hpos : 1 ≤ raw.length := enc_pos 10000 sch inner raw hfr hraw
+  have hpos : 1 ≤ raw.length := enc_pos (fun _ => true) 10000 sch inner raw maxDepth hfr hconf hraw
   -- the marshalled structure is one well-formed item for the raw decoder …
-  obtain ⟨x, hx⟩ := (w_all 10000).1 sch inner raw [] maxDepth maxDepth (2 * raw.length + 1 + sch.ptrDepth) hfr hraw hconf hw (by omega) (Nat.le_refl _)
+  obtain ⟨x, hx⟩ := (w_all (fun _ => true) 10000).1 sch inner raw [] maxDepth maxDepth (2 * raw.length + 1 + sch.ptrDepth) hfr hraw hconf hw (by omega) (Nat.le_refl _)
   simp only [List.append_nil] at hx
   have hx' := decode_fuel _ maxDepth raw x [] hx (2 * raw.length + 1) (by simp; omega)
   -- … so the stream decoder reads the tag with exactly these bytes as its content
   have hne : raw.isEmpty = false := by cases raw <;> simp_all
   have henc2 : encodeS 2 (.tagAny .raw) (.tag t (.raw raw)) = some (encHead 6 t ++ raw) := by
     simp [encodeS, hne]
-  have hconf2 : conf 2 maxDepth (.tagAny .raw) (.tag t (.raw raw)) = true := by
+  have hconf2 : conf (fun _ => true) 2 maxDepth (.tagAny .raw) (.tag t (.raw raw)) = true := by
     simp only [conf, hx', Bool.and_eq_true, decide_eq_true_eq]
     exact ⟨by rcases ht with h | h <;> omega, trivial⟩
   have hh := encHead_length_pos 6 t
